@@ -66,7 +66,10 @@ def griffe_frames(exc: BaseException, limit: int = 3) -> list[str]:
 def failure(inv: str, msg: str, exc: BaseException | None = None, tags=(), where=None) -> dict:
     if where is None and isinstance(exc, RecursionError):
         # where exactly the stack overflows depends on the depth the operation started from: name the cycle instead
-        where = sorted(set(griffe_frames(exc, limit=60)))[:6]
+        # (the cycle that fills the stack - read from the middle of the traceback - not whatever ran at its tip)
+        frames = griffe_frames(exc, limit=100000)
+        body = frames[len(frames) // 4 : len(frames) // 2] if len(frames) >= 200 else frames[-60:]
+        where = sorted(set(body))[:6]
     f = {
         "inv": inv,
         "exc": type(exc).__name__ if exc is not None else None,
